@@ -277,7 +277,7 @@ fn oracle(ctx: &Ctx, ops: &[Op], obs: &[Obs], replay: &str) {
                     if ob.word != want { fail("dispatch", k, format!("mirror holds {:#x}, expected {want:#x}", ob.word)); }
                 } else if *a >= IO_START {
                     if !ob.events.is_empty() { fail("dispatch", k, format!("nothing owns the port, but devices were called: {:?}", ob.events)); }
-                    if ob.word != ob.before { fail("unowned_write", k, format!("write to an unowned port changed memory from {:#x} to {:#x}", ob.before, ob.word)); }
+                    if ob.word != ob.before { fail("unowned_write", k, format!("write to a port that no device took the write on (unowned, or owned by a null device) changed memory from {:#x} to {:#x}", ob.before, ob.word)); }
                 } else if ob.word != *data || !ob.events.is_empty() {
                     fail("dispatch", k, format!("plain memory write: mirror {:#x}, device calls {:?}", ob.word, ob.events));
                 }
